@@ -2,7 +2,10 @@
 // collector std::thread, created through the interposed pthread_create) under the deterministic scheduler.
 // Built with -fno-access-control so that the monitors can read slot versions / queue indices without a
 // scheduling point; nothing of /repo is edited.
-// stdin lines:  <case-id> <sched-seed> <strategy> <step-ns> <min-capacity> <program>
+// stdin lines:  <case-id> <sched-seed> <strategy> <step-ns> <min-capacity>[@<E>] <program>
+//   @<E>: fast-forward - the queue is put (before the run) in the state it has after E full turns of the ring: push and
+//         pop index = E * capacity, every slot version = (2 * E) mod 2^16; E = 32767 makes the next turn cross the 16-bit
+//         wrap of the slot versions (unreachable by plain running: 32768 * capacity retirements)
 //   program = threads separated by '|', ops separated by ',' ; thread t owns Accessor t (created before the run):
 //     R      gc.retire(reclaimer)           R<n>: n retirements in a row (one result "R")
 //     L / U  accessor.lock() / unlock()     (U without a lock held is skipped: "-")
@@ -87,8 +90,10 @@ int main(int, char**) {
   static char line[1 << 16];
   while (fgets(line, sizeof line, stdin)) {
     char id[64], prog[60000];
-    unsigned long long seed, step_ns; int strategy; unsigned long mincap;
-    if (sscanf(line, "%63s %llu %d %llu %lu %59999s", id, &seed, &strategy, &step_ns, &mincap, prog) != 6) continue;
+    unsigned long long seed, step_ns; int strategy; unsigned long mincap; char capspec[64];
+    if (sscanf(line, "%63s %llu %d %llu %63s %59999s", id, &seed, &strategy, &step_ns, capspec, prog) != 6) continue;
+    mincap = strtoul(capspec, nullptr, 10);
+    const size_t turns = strchr(capspec, '@') ? strtoull(strchr(capspec, '@') + 1, nullptr, 10) : 0;
     std::vector<std::vector<Op>> threads;
     {
       std::stringstream ss(prog); std::string th;
@@ -110,9 +115,14 @@ int main(int, char**) {
     w.gc = gc;
     gc->set_queue_capacity(mincap);
     const size_t cap = gc->_queue.capacity();
+    if (turns) {   // as if `turns` full turns of the ring had been pushed and popped
+      gc->_queue._next_push_index.store(turns * cap, std::memory_order_relaxed);
+      gc->_queue._next_pop_index.store(turns * cap, std::memory_order_relaxed);
+      for (size_t i = 0; i < cap; ++i) gc->_queue._slots.futex(i)._futex.value().store((uint32_t)((2 * turns) & 0xFFFF), std::memory_order_relaxed);
+    }
     std::vector<Epoch::Accessor> acc;
     for (int t = 0; t < NT; ++t) acc.push_back(gc->epoch().create_accessor());
-    size_t pushes_returned = 0;
+    size_t pushes_returned = turns * cap;
     bool qbound = true, bound = true;
     const size_t batch = std::min<size_t>(1024, cap);
     auto raw_pop = [&] { return static_cast<std::verif_atomic<size_t>::B&>(gc->_queue._next_pop_index).load(std::memory_order_relaxed); };
@@ -142,7 +152,14 @@ int main(int, char**) {
                 gc->retire(Reclaimer(rid));
                 w.retired[rid].e = verif::stamp();
                 pushes_returned++;
-                if (pushes_returned > raw_pop() + cap) qbound = false;
+                if (pushes_returned > raw_pop() + cap) {
+                  // retire() returned on a full queue: an unpopped task was overwritten.  The collector usually stalls for ever
+                  // afterwards, so report the verdict now (the scheduler run cannot be unwound) and leave.
+                  printf("DSCHED-STUCK overfull-push case=%s cap=%zu turns=%zu pushes-returned=%zu popped=%zu calls=%zu (thread %d op %zu)\n",
+                         id, cap, turns, pushes_returned, raw_pop(), w.call_order.size(), t, i);
+                  fflush(stdout);
+                  _exit(3);
+                }
                 size_t done = 0;
                 for (auto& x : w.retired) if (x.calls > 0 || x.dropped) done++;
                 if (w.retired.size() - done > cap + batch + (size_t)NT) bound = false;
